@@ -83,6 +83,66 @@ def _split_parallel(fn, pinned):
     return n_
 
 
+def _unroll_literal_loops(fn, pinned):
+    """`for a, b in ((x1, y1), (x2, y2)): BODY` with NEW loop variables over a literal display of at most 6 rows is stored unrolled:
+    `a__u0, b__u0 = x1, y1; BODY[a__u0, b__u0]; a__u1, b__u1 = x2, y2; BODY[..]` - "two parallel blocks merged into one loop over a table"
+    is read as the two blocks again (exact: the rows of a display are evaluated in order either way; no break / continue in BODY)."""
+    n_ = 0
+    for par in list(ast.walk(fn)):
+        for fld in ("body", "orelse", "finalbody"):
+            b = getattr(par, fld, None)
+            if not isinstance(b, list):
+                continue
+            i = 0
+            while i < len(b):
+                lp = b[i]
+                i += 1
+                if not isinstance(lp, ast.For) or lp.orelse or not isinstance(lp.iter, (ast.Tuple, ast.List)) or not (1 <= len(lp.iter.elts) <= 6):
+                    continue
+                tnames = [x.id for x in ast.walk(lp.target) if isinstance(x, ast.Name)]
+                if not tnames or any(t in pinned for t in tnames) or any(isinstance(e, ast.Starred) for e in lp.iter.elts):
+                    continue
+                def has_jump(stmts):
+                    for s_ in stmts:
+                        if isinstance(s_, (ast.Break, ast.Continue)):
+                            return True
+                        if isinstance(s_, (ast.For, ast.While, ast.AsyncFor, ast.FunctionDef, ast.AsyncFunctionDef, ast.ClassDef)):
+                            continue
+                        for f2 in ("body", "orelse", "finalbody", "handlers"):
+                            sub = getattr(s_, f2, None)
+                            if isinstance(sub, list) and has_jump([x for x in sub if isinstance(x, ast.stmt)] +
+                                                                   [y for x in sub if isinstance(x, ast.ExceptHandler) for y in x.body]):
+                                return True
+                    return False
+                if has_jump(lp.body):
+                    continue
+                # the loop variables must not be read after the loop (they would keep the last row's values: keep it simple)
+                after = [x for x in ast.walk(fn) if isinstance(x, ast.Name) and x.id in tnames and isinstance(x.ctx, ast.Load)
+                         and (x.lineno, x.col_offset) > (getattr(lp, "end_lineno", lp.lineno), getattr(lp, "end_col_offset", 0))]
+                if after:
+                    continue
+                out = []
+                for k, row in enumerate(lp.iter.elts):
+                    ren = {t: f"{t}__u{k}" for t in tnames}
+
+                    class R(ast.NodeTransformer):
+                        def visit_Name(self, n):
+                            if n.id in ren:
+                                return ast.copy_location(ast.Name(id=ren[n.id], ctx=n.ctx), n)
+                            return n
+                    tg = R().visit(_clone(lp.target))
+                    a = ast.Assign(targets=[tg], value=_clone(row), type_comment=None)
+                    ast.copy_location(a, row)
+                    a.end_lineno, a.end_col_offset = getattr(row, "end_lineno", row.lineno), getattr(row, "end_col_offset", row.col_offset + 1)
+                    out.append(a)
+                    for st in lp.body:
+                        out.append(R().visit(_clone(st)))
+                b[i - 1:i] = out
+                i += len(out) - 1
+                n_ += 1
+    return n_
+
+
 def _unpack_indexed(fn, pinned):
     """`t = f(..)` whose only uses are `t[0]`, `t[1]`, .. (constant indices, loads) with t a NEW local is stored as the unpacking
     `(t__0, t__1, ..) = f(..)` with the subscripts replaced by those names: indexing a result tuple and unpacking it are one program
@@ -139,13 +199,14 @@ def fold_function(fi):
     pinned = set(PIN["locals"].get(fi.qualname, ()))
     if fi.qualname not in PIN["locals"]:
         return 0
-    pre = _split_parallel(fn, pinned) + _unpack_indexed(fn, pinned)
+    pre = _unroll_literal_loops(fn, pinned)
+    pre += _split_parallel(fn, pinned) + _unpack_indexed(fn, pinned)
     # renamed locals look like new ones: when the function has lost as many pinned locals as it has gained new ones, the new names are
     # (most likely) the old locals under another name - the rules already follow renamed locals by shape, so nothing is folded there
     present = {n.id for n in ast.walk(fn) if isinstance(n, ast.Name) and isinstance(n.ctx, ast.Store)}
     a_ = fn.args
     params = {x.arg for x in a_.posonlyargs + a_.args + a_.kwonlyargs}
-    missing = {p for p in pinned if p not in present and p not in params}
+    missing = {p for p in pinned if p not in present and p not in params and p not in getattr(fn, "_normalised_away", ())}
     gained = {p for p in present if p not in pinned}
     if missing and len(gained) <= len(missing):
         return pre
